@@ -3,7 +3,7 @@
    [replay] refuses an "added" for a record already present and a "removed" for an absent one, so
    [replay cbs [] = Some Y] says at once: nothing reported that did not happen, nothing repeated;
    [Permutation Y (trecords T)] says nothing is missing.                                        *)
-From RtrV Require Import Pfx.TrieModel Pfx.PfxTable Pfx.PfxProofs Pfx.PfxHistory.
+From RtrV Require Import Pfx.TrieModel Pfx.PfxTable Pfx.PfxProofs Pfx.PfxHistory Pfx.PfxReload.
 From Coq Require Import Permutation.
 
 (* every history of public operations, removal by source included *)
@@ -16,5 +16,15 @@ Theorem C09_free : forall ops T cs cbs, Forall op_ok ops -> run empty_table ops 
   exists fcbs, tfree T = Some fcbs /\ replay fcbs (trecords T) = Some [].
 Proof. exact c09_free. Qed.
 
+(* atomic reload: after copy-except-source / fill / swap, notify_diff reports exactly the net
+   difference for the reloading source: replaying it on the old contents gives the new contents
+   (records of other sources are identical in both tables and never reported) *)
+Theorem C09_reload : forall Told Tnew s,
+  TWF Told -> TWF Tnew ->
+  (forall r, src_of r <> s -> (In r (trecords Told) <-> In r (trecords Tnew))) ->
+  exists Y, replay (fst (tnotify_diff Tnew Told s)) (trecords Told) = Some Y /\ Permutation Y (trecords Tnew).
+Proof. exact c09_reload. Qed.
+
 Print Assumptions C09_history.
 Print Assumptions C09_free.
+Print Assumptions C09_reload.
